@@ -98,42 +98,79 @@ fn compile(src: &str) -> Result<Package<roto::NoCtx>, String> {
         .map_err(|e| format!("{e}"))
 }
 
-/// Call `main` once and measure.
-fn call_once(pkg: &mut Package<roto::NoCtx>, ret: Ret, i: Inputs) -> Result<Balance, String> {
-    type A = (u32, u32, bool, Val<Tk>, RotoString);
-    macro_rules! go {
-        ($r:ty) => {{
-            let f = pkg
-                .get_function::<fn(u32, u32, bool, Val<Tk>, RotoString) -> $r>("main")
-                .map_err(|e| format!("{e}"))?;
-            let before = counters();
-            {
-                let a: A = (i.n, i.m, i.c, Val(Tk::new(1000)), RotoString::from("arg"));
-                let out = f.call(a.0, a.1, a.2, a.3, a.4);
-                drop(out);
-            }
-            let after = counters();
-            Balance {
-                live: after.live - before.live,
-                double_drop: after.double_drop - before.double_drop,
-                use_after_drop: after.use_after_drop - before.use_after_drop,
-                allocs: after.allocs - before.allocs,
-                created: after.created - before.created,
-                cloned: after.cloned - before.cloned,
-                dropped: after.dropped - before.dropped,
-            }
-        }};
-    }
-    Ok(match ret {
-        Ret::U32 => go!(u32),
-        Ret::Tk => go!(Val<Tk>),
-        Ret::Str => go!(RotoString),
-        Ret::OptTk => go!(Option<Val<Tk>>),
-        Ret::ListTk => go!(List<Val<Tk>>),
-        Ret::Verdict => go!(Verdict<Val<Tk>, RotoString>),
-        Ret::Unit => go!(()),
-    })
+/// Which token type a script is written over: the sized `Tk` (id + tag) or its zero-sized twin
+/// `Tz` (`progen::zero_src`). The origin of a zero-sized case ends in `/zst`.
+#[derive(Clone, Copy, Debug, PartialEq, Eq)]
+pub enum Tok {
+    Sized,
+    Zero,
 }
+
+impl Tok {
+    fn of(origin: &str) -> Tok {
+        if origin.split('|').next().unwrap_or("").ends_with("/zst") { Tok::Zero } else { Tok::Sized }
+    }
+}
+
+/// Call `main` once and measure.
+fn call_once(pkg: &mut Package<roto::NoCtx>, ret: Ret, i: Inputs, tok: Tok) -> Result<Balance, String> {
+    match tok {
+        Tok::Sized => call_once_with::<Tk>(pkg, ret, i),
+        Tok::Zero => call_once_with::<Tz>(pkg, ret, i),
+    }
+}
+
+fn call_once_with<T: TokenCall>(pkg: &mut Package<roto::NoCtx>, ret: Ret, i: Inputs) -> Result<Balance, String> {
+    T::call_once(pkg, ret, i)
+}
+
+trait TokenCall {
+    fn call_once(pkg: &mut Package<roto::NoCtx>, ret: Ret, i: Inputs) -> Result<Balance, String>;
+}
+
+macro_rules! measured_call {
+    ($pkg:ident, $i:ident, $t:ty, $r:ty) => {{
+        let f = $pkg
+            .get_function::<fn(u32, u32, bool, Val<$t>, RotoString) -> $r>("main")
+            .map_err(|e| format!("{e}"))?;
+        let before = counters();
+        {
+            let a: (u32, u32, bool, Val<$t>, RotoString) = ($i.n, $i.m, $i.c, Val(<$t as Token>::fresh()), RotoString::from("arg"));
+            let out = f.call(a.0, a.1, a.2, a.3, a.4);
+            drop(out);
+        }
+        let after = counters();
+        Balance {
+            live: after.live - before.live,
+            double_drop: after.double_drop - before.double_drop,
+            use_after_drop: after.use_after_drop - before.use_after_drop,
+            allocs: after.allocs - before.allocs,
+            created: after.created - before.created,
+            cloned: after.cloned - before.cloned,
+            dropped: after.dropped - before.dropped,
+        }
+    }};
+}
+
+macro_rules! token_call {
+    ($t:ty) => {
+        impl TokenCall for $t {
+            fn call_once(pkg: &mut Package<roto::NoCtx>, ret: Ret, i: Inputs) -> Result<Balance, String> {
+                Ok(match ret {
+                    Ret::U32 => measured_call!(pkg, i, $t, u32),
+                    Ret::Tk => measured_call!(pkg, i, $t, Val<$t>),
+                    Ret::Str => measured_call!(pkg, i, $t, RotoString),
+                    Ret::OptTk => measured_call!(pkg, i, $t, Option<Val<$t>>),
+                    Ret::ListTk => measured_call!(pkg, i, $t, List<Val<$t>>),
+                    Ret::Verdict => measured_call!(pkg, i, $t, Verdict<Val<$t>, RotoString>),
+                    Ret::Unit => measured_call!(pkg, i, $t, ()),
+                })
+            }
+        }
+    };
+}
+token_call!(Tk);
+token_call!(Tz);
 
 fn dump(src: &str) -> Result<Vec<roto::verif_hooks::c03::ItemDump>, String> {
     let rt = runtime();
@@ -554,6 +591,7 @@ fn one_case_glue(rep: &mut Report, drv: &mut Driver, src: &str, ret: Ret, origin
         }
     };
     rep.hist("compile", "ok");
+    let tok = Tok::of(origin);
     for b in &checked.bad {
         rep.mismatch("driver could not read the dump", json!({"script": src, "answer": b}));
     }
@@ -570,7 +608,7 @@ fn one_case_glue(rep: &mut Report, drv: &mut Driver, src: &str, ret: Ret, origin
     let mut alloc_bad: Option<(Inputs, Balance)> = None;
     let mut sig = std::collections::BTreeSet::new();
     for i in all_inputs() {
-        let b1 = match call_once(&mut pkg, ret, i) {
+        let b1 = match call_once(&mut pkg, ret, i, tok) {
             Ok(b) => b,
             Err(e) => {
                 // A generated script may leave a type undetermined (`[].get(0)` whose element is
@@ -591,7 +629,7 @@ fn one_case_glue(rep: &mut Report, drv: &mut Driver, src: &str, ret: Ret, origin
             bad = Some((i, b1));
         }
         if b1.ok() {
-            let b2 = call_once(&mut pkg, ret, i).unwrap();
+            let b2 = call_once(&mut pkg, ret, i, tok).unwrap();
             rep.evaluations += 1;
             if b2.ok() && b2.allocs != 0 && alloc_bad.is_none() {
                 alloc_bad = Some((i, b2));
@@ -601,7 +639,7 @@ fn one_case_glue(rep: &mut Report, drv: &mut Driver, src: &str, ret: Ret, origin
     rep.hist("paths-per-program", format!("{}", sig.len().min(12)));
     let input = |i: &Inputs, b: &Balance| {
         let mut v = json!({"script": src, "ret": ret.name(), "inputs": {"n": i.n, "m": i.m, "c": i.c},
-               "balance": balance_json(b), "origin": origin});
+               "balance": balance_json(b), "origin": origin, "token": if tok == Tok::Zero { "zero-sized" } else { "sized" }});
         if let Some((nums, reach)) = glue_nums {
             v["glue_nums"] = json!(nums);
             v["glue_reach"] = json!(reach);
@@ -661,7 +699,8 @@ fn one_case_glue(rep: &mut Report, drv: &mut Driver, src: &str, ret: Ret, origin
                 json!({"script": src, "origin": origin}));
         }
         (None, None) => {
-            rep.class(if glue { format!("balanced-glue:{}", class_of_glue(origin, src)) } else { format!("balanced:{}", class_sig(src)) });
+            let z = if tok == Tok::Zero { "zst:" } else { "" };
+            rep.class(if glue { format!("balanced-glue:{}", class_of_glue(origin, src)) } else { format!("balanced:{z}{}", class_sig(src)) });
         }
         (Some((i, b)), Some(r)) => {
             rep.violation(
@@ -681,6 +720,18 @@ fn one_case_glue(rep: &mut Report, drv: &mut Driver, src: &str, ret: Ret, origin
                 rep.mismatch("imbalance measured on a glue program for which the model predicts exact release", input(i, b));
             }
             rep.class("defect:drop-clone-glue".to_string());
+        }
+        (Some((i, b)), None) if (tok == Tok::Zero || progen::sized_src(src) != src) && twin_balances(src, ret, *i) => {
+            // The MIR is justified by both verified checkers (it does not depend on sizes) and
+            // the same script over the sized token balances on this input: what differs is how
+            // the clone / drop glue below the MIR (call_clone_function / call_drop_of, the
+            // generated clone / drop functions of aggregates, list element vtables) treats a
+            // registered `#[clone]` type whose Rust type has size 0.
+            rep.violation(
+                &format!("zero-sized registered #[clone] type: {} (created {}, cloned {}, dropped {}) while the same script over the sized token balances on every steering input (here n={} m={} c={}); the MIR is accepted by the verified checkers: the clone / drop glue treats a type of size 0 differently from a sized one",
+                    describe(b), b.created, b.cloned, b.dropped, i.n, i.m, i.c),
+                "zero-sized-token-glue", input(i, b));
+            rep.class("defect:zero-sized-token-glue".to_string());
         }
         (Some((i, b)), None) if !runtime_element_calls(src).is_empty() => {
             // The MIR is justified by both verified checkers and hands a value to the list
@@ -718,6 +769,23 @@ fn one_case_glue(rep: &mut Report, drv: &mut Driver, src: &str, ret: Ret, origin
     }
 }
 
+/// Does the sized twin of a zero-sized script balance (tokens, and heap on the warm call) on
+/// EVERY steering input? (The two twins may take different paths on one input — a zero-sized
+/// token has no tag, so `==` / `contains` / `index` answer differently — so one input says little.)
+fn twin_balances(src: &str, ret: Ret, _i: Inputs) -> bool {
+    let Ok(mut pkg) = compile(&progen::sized_src(src)) else { return false };
+    for i in all_inputs() {
+        let Ok(b1) = call_once(&mut pkg, ret, i, Tok::Sized) else { return false };
+        if !b1.ok() {
+            return false;
+        }
+        if !matches!(call_once(&mut pkg, ret, i, Tok::Sized), Ok(b2) if b2.ok() && b2.allocs == 0) {
+            return false;
+        }
+    }
+    true
+}
+
 /// the list methods used in `main` that receive an element as a `DynVal` (raw pointer)
 fn runtime_element_calls(src: &str) -> Vec<&'static str> {
     let body = src.split("main(").nth(1).unwrap_or(src);
@@ -746,12 +814,41 @@ fn class_sig(src: &str) -> String {
 
 const RETS: [Ret; 7] = [Ret::U32, Ret::Tk, Ret::Str, Ret::OptTk, Ret::ListTk, Ret::Verdict, Ret::Unit];
 
+/// the generated program `(seed, index, depth)`; every third one is written over the
+/// zero-sized token (`progen::zero_src` of what the generator produced)
 fn gen_case(seed: u64, index: u64, depth: u32) -> (String, Ret, std::collections::BTreeMap<&'static str, u64>) {
     let mut rng = Prng::for_case(seed, index);
     let ret = *rng.pick(&RETS);
     let mut g = progen::Gen::new(rng, ret);
     let src = g.program(depth);
+    if gen_tok(index) == Tok::Zero {
+        return (progen::zero_src(&src), ret, g.used);
+    }
     (src, ret, g.used)
+}
+
+fn gen_tok(index: u64) -> Tok {
+    if index % 3 == 2 { Tok::Zero } else { Tok::Sized }
+}
+
+fn gen_origin(seed: u64, index: u64, depth: u32) -> String {
+    format!("gen:{seed}:{index}:{depth}{}", if gen_tok(index) == Tok::Zero { "/zst" } else { "" })
+}
+
+/// The class representatives: the hand-written table over the sized token, then the same
+/// scripts over the zero-sized token (one per construct x {sized, zero-sized}), then scripts
+/// whose aggregates mix both.
+fn table_case(index: usize) -> Option<(String, Ret, String)> {
+    let t = table();
+    if let Some((name, ret, src)) = t.get(index) {
+        return Some((format!("table:{name}"), *ret, src.clone()));
+    }
+    let (name, ret, src) = t.get(index - t.len())?;
+    Some((format!("table:{name}/zst"), *ret, progen::zero_src(src)))
+}
+
+fn table_len() -> u64 {
+    2 * table().len() as u64
 }
 
 /// The hand-written table: the known defect witnesses and one clean script per construct.
@@ -830,6 +927,11 @@ fn table() -> Vec<(&'static str, Ret, String)> {
         ("rt-index-record", Ret::U32, f("u32", "let l: List[R] = []; let i = 0; while i < n { l.push(R { a: mk(i), b: s, k: i }); i = i + 1; } match l.index(R { a: mk(m), b: s, k: m }) { Some(j) => 1, None => 0 }")),
         ("rt-contains-option", Ret::U32, f("u32", "let l: List[Tk?] = []; let i = 0; while i < n { l.push(maybe(c, i)); i = i + 1; } if l.contains(Some(mk(m))) { 1 } else { 0 }")),
         ("rt-seen-loop", Ret::U32, f("u32", "let seen: List[Tk] = []; for e in many(n) + many(m) { if !seen.contains(e) { seen.push(e); } } count(seen)")),
+        // aggregates that hold the sized and the zero-sized token side by side (their zero-sized
+        // twins hold only zero-sized tokens next to a scalar)
+        ("mixed-record", Ret::U32, format!("record M {{ z: Tz, a: Tk, y: Tz, k: u32 }}\n{}", f("u32", "let r = M { z: mkz(1), a: t, y: mkz(2), k: n }; let r2 = r; let z2 = r2.z; r2.y = z2; if c { return 1; } let l = [r, r2]; match l.get(0) { Some(x) => idz(x.y) + id(x.a), None => 0 }"))),
+        ("mixed-enum", Ret::U32, format!("enum ME {{ A(Tz, Tk), B(Tk, Tz), C(Tz), D }}\n{}", f("u32", "let e = if n == 0 { ME.A(mkz(1), t) } else if n == 1 { ME.B(t, mkz(2)) } else if n == 2 { ME.C(mkz(3)) } else { ME.D }; let g = e; if c { return 1; } let l = [e, g]; match l.get(0) { Some(x) => match x { A(z, a) => id(a) + idz(z), B(a, z) => idz(z), C(z) => 2, D => 3 }, None => 4 }"))),
+        ("mixed-option-list", Ret::U32, f("u32", "let o = maybez(c, 1); let p = o; let l: List[Tz?] = [o, p, None]; let k = 0; for e in l { k = k + match e { Some(z) => 1 + idz(z), None => 0 }; } let q = [manyz(n), manyz(m)]; for e in q { k = k + countz(e); } k + id(t)")),
         ("rt-push-get-swap-concat", Ret::U32, f("u32", "let l = many(n); l.push(t); l.swap(0, 1); let a = l.concat(many(m)); let k = match a.get(1) { Some(x) => id(x), None => 0 }; if a.is_empty() { k } else { k + 1 }")),
     ]
 }
@@ -862,15 +964,16 @@ fn run_worker_batch(kind: &str, seed: u64, depth: u32, from: u64, n: u64) {
                     *rep.histograms.entry("constructs".into()).or_default().entry(k.to_string()).or_insert(0) += v;
                 }
                 rep.hist("return-kind", ret.name());
+                rep.hist("token", if gen_tok(index) == Tok::Zero { "zero-sized" } else { "sized" });
                 if index < from + 2 {
                     rep.sample(json!({"seed": seed, "index": index, "ret": ret.name(), "script": src}));
                 }
-                one_case(&mut rep, &mut drv, &src, ret, &format!("gen:{seed}:{index}:{depth}"));
+                one_case(&mut rep, &mut drv, &src, ret, &gen_origin(seed, index, depth));
             }
             "table" => {
-                let t = table();
-                if let Some((name, ret, src)) = t.get(index as usize) {
-                    one_case(&mut rep, &mut drv, src, *ret, &format!("table:{name}"));
+                if let Some((origin, ret, src)) = table_case(index as usize) {
+                    rep.hist("token", if Tok::of(&origin) == Tok::Zero { "zero-sized" } else { "sized" });
+                    one_case(&mut rep, &mut drv, &src, ret, &origin);
                 }
             }
             "gtable" | "glue" => {
@@ -1035,7 +1138,11 @@ fn on_crash(rep: &mut Report, kind: &str, seed: u64, depth: u32, index: u64, end
             }
             None => return,
         },
-        _ => table().get(index as usize).map(|t| (t.2.clone(), t.1)).unwrap_or_default_case(),
+        _ => table_case(index as usize).map(|t| (t.2, t.1)).unwrap_or_default_case(),
+    };
+    let origin = match kind {
+        "gen" => gen_origin(seed, index, depth),
+        _ => table_case(index as usize).map(|t| t.0).unwrap_or_else(|| format!("{kind}:{seed}:{index}:{depth}")),
     };
     // classify by what the verified checker says about the script
     let (key, why) = match Driver::spawn().ok().map(|mut d| check_script(&mut d, &src)) {
@@ -1061,7 +1168,7 @@ fn on_crash(rep: &mut Report, kind: &str, seed: u64, depth: u32, index: u64, end
     rep.violation(
         &format!("{key}: the host process died while running the script ({ended:?}) — released memory that was never initialised or already freed ({why})"),
         &key,
-        json!({"script": src, "ret": ret.name(), "origin": format!("{kind}:{seed}:{index}:{depth}"), "crash": true}),
+        json!({"script": src, "ret": ret.name(), "origin": origin, "crash": true}),
     );
     rep.class(format!("defect:{key}"));
 }
@@ -1085,7 +1192,7 @@ fn main() {
             let mut rep = Report::default();
             let timeout = std::time::Duration::from_secs(30);
             // 1. the table (witnesses first)
-            let nt = table().len() as u64;
+            let nt = table_len();
             // one process per representative: a crash must not swallow the verdicts of its neighbours
             rotov_harness::worker::run_batches(&["table", "0", "0"], nt, 1, timeout, &mut rep,
                 |rep, idx, ended| on_crash(rep, "table", 0, 0, idx, ended));
@@ -1216,6 +1323,17 @@ fn main() {
             std::fs::write(out, text).expect("write");
             println!("EXTRACT-OK C03Dumps");
         }
+        Some("table-src") => {
+            // every class representative: origin, return kind, whether it compiles, the script
+            for i in 0..table_len() as usize {
+                if let Some((origin, ret, src)) = table_case(i) {
+                    let ok = match compile(&src) { Ok(_) => "compiles".to_string(), Err(e) => format!("REJECTED {}", e.lines().take(6).collect::<Vec<_>>().join(" / ")) };
+                    if args.get(2).is_none_or(|f| origin.contains(f.as_str())) {
+                        println!("{origin} [{}] {ok}\n{src}", ret.name());
+                    }
+                }
+            }
+        }
         Some("table-nums") => {
             for (name, _ret, src) in table() {
                 if let Ok(items) = dump(&src) {
@@ -1238,8 +1356,9 @@ fn main() {
             };
             match compile(&args[3]) {
                 Ok(mut pkg) => {
-                    let b1 = call_once(&mut pkg, ret, i);
-                    let b2 = call_once(&mut pkg, ret, i);
+                    let tok = if args.get(7).map(|s| s.as_str()) == Some("zst") { Tok::Zero } else { Tok::Sized };
+                    let b1 = call_once(&mut pkg, ret, i, tok);
+                    let b2 = call_once(&mut pkg, ret, i, tok);
                     println!("first  {b1:?}\nsecond {b2:?}");
                 }
                 Err(e) => println!("ERROR\n{e}"),
